@@ -85,7 +85,7 @@ TECHNIQUE = ("Coq proof over hand-written Gallina models of printer.go and the p
              "correspondence, with the executable specification (sem, gaps) evaluated on the Go parser's trees of the "
              "original and of the Go-formatted text, and a run through the knut binary")
 LEVEL_TEXT = ("see Properties/C08.v: C08_unparseable, C08_no_panic, C08_format_shape, C08_format_determined, C08_idem_of_roundtrip "
-              "at full strength; the round trip itself (C08_roundtrip) is stated in full and proved for a fragment, and is "
+              "at full strength; the round trip itself (C08_roundtrip) is stated in full and proved only for files without directives (C08_roundtrip_partial) and for texts already in formatted form (C08_roundtrip_on_formatted); it is "
               "evaluated on every generated case with the Go parser on the Go formatter's output.")
 LEVEL_NOTE = ("Trusted: kernel, extraction, drivers, harness; that Model/SynPrinter.v is printer.go (byte equality on every case). "
               "The re-parse half of the property is proved only partially; the check evaluates it on every case.")
